@@ -7,7 +7,8 @@ RULE = ("str_run: a minimal preamble, then the role's input streams (all 3 roles
         "thorough) cut by styles none/few/many/every, paddings {0,1,7,8,255}, interleaved GetValues / unknown-type / stale Params / duplicate "
         "and foreign BeginRequest / foreign-id stream records; caller schedules drawn from a Markov generator over feed+parse(None), "
         "feed+parse(Some(cap 0..n)), consume_stream(k), compress, consume_output(k), set_stream(next), followed by a drain phase; buffer sizes "
-        "24, 32, 40, 64, 256, 8192. Non-trivial: schedule contains at least one parse into dest and one into the buffer, or junk records, "
+        "24, 32, 40, 64, 256, 8192; directed: records that must be ignored with content + padding > 65535, and buffers of 65536 / 65544 / 131072 "
+        "bytes filled to the brim in one call while a 65535-byte record is pending. Non-trivial: schedule contains at least one parse into dest and one into the buffer, or junk records, "
         "or B <= 40; distinct = distinct case lines.")
 ASSUMPTIONS = ["GetValues name-value pairs fit the buffer (the stream parser has no stuck detection; documented bound)",
                "dest is only passed when stream_buffer is empty (documented precondition; the interpreter skips such ops)"]
@@ -119,8 +120,36 @@ def huge_ignored_case(rng, kind):
 _gen_cases_base = gen_cases
 
 
+def full_64k_case(rng, variant):
+    """buffers of 64 KiB and more, filled completely in ONE call while a maximum-size record is pending: the number of unparsed
+    buffered bytes is exactly 65536 (or a little more) when the payload piece is sized - lengths that do not fit 16 bits"""
+    rid, role = 1, RESPONDER
+    P = 65535
+    body = [rng.randrange(256) for _ in range(P)]
+    body2 = [rng.randrange(256) for _ in range(rng.choice([P, 300]))]
+    recs = minimal_preamble(rid, role) + [record(STDIN, rid, body, 1), record(STDIN, rid, body2, rng.choice([0, 7])), record(STDIN, rid, [], 0)]
+    wire = flat(recs)
+    cap = rng.choice([0, 1, 1000, 10 ** 6])
+    if variant == 0:
+        # B = 65544: the header is consumed from a completely full buffer, 65536 raw bytes remain behind it
+        B, ops = 65544, [rng.choice([[0, 10 ** 6], [1, 10 ** 6, cap]])]
+    elif variant == 1:
+        # B = 65536: a few payload bytes are taken first, the buffer is compacted, then filled to the brim mid-record
+        k = rng.choice([9, 20, 100])
+        B, ops = 65536, [[1, k, 1000], [2, 10 ** 6], [3], rng.choice([[0, 10 ** 6], [1, 10 ** 6, cap]])]
+    else:
+        B, ops = rng.choice([65536, 65544, 131072]), [[rng.choice([0, 1]), rng.choice([65536, 65544, 10 ** 6]), cap][:rng.choice([2, 3])] for _ in range(3)]
+        ops = [o if len(o) == 3 or o[0] == 0 else [0, o[1]] for o in ops]
+    for _ in range(len(wire) // (B // 2) + 8):
+        ops += [[0, 10 ** 6], [2, 10 ** 6], [4, 10 ** 6], [3]]
+    return "str_run " + " ".join(fmt_arg(x) for x in [[B], [1], wire] + ops), ["stream", "role%d" % role, "full-64k", "mixed-dest"]
+
+
 def gen_cases(rng, tier):
     yield from _gen_cases_base(rng, tier)
+    for variant in (0, 1, 2):
+        for _ in range(1 if tier == "quick" else 6):
+            yield full_64k_case(rng, variant)
     for kind in ("foreign-id", "stale-params", "earlier-stream"):
         for _ in range(1 if tier == "quick" else 8):
             yield huge_ignored_case(rng, kind)
@@ -131,7 +160,7 @@ def nontrivial(line, tags):
 
 
 def min_classes(tier):
-    return {"mixed-dest": 300, "small-buffer": 200, "zero-dest": 100, "set-stream": 100, "big": 2, "huge-ignored": 3, "role1": 100, "role2": 100, "role3": 100}
+    return {"mixed-dest": 300, "small-buffer": 200, "zero-dest": 100, "set-stream": 100, "big": 2, "huge-ignored": 3, "full-64k": 3, "role1": 100, "role2": 100, "role3": 100}
 
 
 def oracle(line, impl_line):
